@@ -6,7 +6,7 @@ round trips, lookups and sizes are values and are not decided."""
 import ast
 
 from ..model import text, AnalysisError
-from ..cfg import guards
+from ..cfg import guards, enclosing_stmt
 from .. import pat
 
 EXPLANATION = (
@@ -20,7 +20,12 @@ EXPLANATION = (
     "getSize; getSliceMaxLength unless nextInSlice is overridden) and that "
     "define encodeFiber, encodeCoord(s) and encodeUpperPayload; (R3) "
     "producers (encodeFiber) and the output dictionary obtain the coords_* / "
-    "payloads_* keys from the same Codec.get_keys.")
+    "payloads_* keys from the same Codec.get_keys; (R4) what encodeFiber of "
+    "C and B returns -- the occupancy the rank above accumulates into its "
+    "segment ends -- is a count of the loop iterations over the fiber's "
+    "elements: a counter set to 0 before the loop and incremented by one, "
+    "unconditionally, once per iteration (or the length of a list appended to "
+    "in that way).")
 RULE = "one obligation per format x clause"
 
 FORMATS = {"U": "Uncompressed", "C": "CoordinateList", "B": "Bitvector"}
@@ -30,6 +35,7 @@ def run(ctx):
     ctx.guard(r1_shape)
     ctx.guard(r2_registry)
     ctx.guard(r3_keys)
+    ctx.guard(r4_occupancy)
 
 
 def _cls(ctx, name):
@@ -189,3 +195,81 @@ def r3_keys(ctx):
     else:
         ctx.bad("C20.R3", g, g.node, "get_output_dict no longer keys the output "
                 "by Codec.get_keys", text_="get_output_dict keys")
+
+
+# -- R4: the occupancy handed to the rank above counts the encoded elements ----
+
+def _resolve_ret(ctx, f, e, depth=0):
+    if depth > 4:
+        return e
+    if isinstance(e, ast.Name):
+        v = pat.single_def(ctx, f, e)
+        return _resolve_ret(ctx, f, v, depth + 1) if v is not None else e
+    if isinstance(e, ast.Attribute) and text(e.value) == "self":
+        st = [n for n in f.own_nodes() if isinstance(n, ast.Assign)
+              and len(n.targets) == 1 and text(n.targets[0]) == text(e)]
+        if len(st) == 1:
+            return _resolve_ret(ctx, f, st[0].value, depth + 1)
+    return e
+
+
+def r4_occupancy(ctx):
+    for d in ("C", "B"):
+        cname = FORMATS[d]
+        ci = _cls(ctx, cname)
+        f = ci.methods.get("encodeFiber")
+        if f is None:
+            continue
+        loops = [n for n in f.body if isinstance(n, ast.For)
+                 and text(n.iter) == f.all_param_names()[1]]
+        ctx.require(len(loops) == 1, "C20.R4: %s.encodeFiber: element loop over "
+                    "the fiber parameter not found" % cname)
+        loop = loops[0]
+        jumps = [n for n in ast.walk(loop) if isinstance(n, (ast.Continue, ast.Break))]
+        rets = pat.returns(f)
+        ctx.require(rets, "C20.R4: %s.encodeFiber has no return" % cname)
+        for r in rets:
+            v = _resolve_ret(ctx, f, r.value)
+            ok, why = False, ""
+            if isinstance(v, ast.Name):
+                asg = [n for n in f.own_nodes()
+                       if (isinstance(n, ast.Assign) and len(n.targets) == 1
+                           and text(n.targets[0]) == v.id)
+                       or (isinstance(n, ast.AugAssign) and text(n.target) == v.id)]
+                init = [n for n in asg if isinstance(n, ast.Assign) and n in f.body
+                        and text(n.value) == "0" and n.lineno < loop.lineno]
+                inc = [n for n in asg if n not in init]
+                def is_inc(n):
+                    if isinstance(n, ast.AugAssign):
+                        return isinstance(n.op, ast.Add) and text(n.value) == "1"
+                    t = text(n.value).replace(" ", "")
+                    return t in ("%s+1" % v.id, "1+%s" % v.id)
+                ok = len(init) == 1 and len(inc) == 1 and inc[0] in loop.body \
+                    and is_inc(inc[0]) and not jumps
+                why = "counter `%s`: %d initialisation(s) to 0 before the loop, " \
+                    "%d other assignment(s)%s" % (
+                        v.id, len(init), len(inc),
+                        "" if not inc or inc[0] in loop.body else
+                        " (not at the top level of the element loop)")
+            elif isinstance(v, ast.Call) and text(v.func) == "len" and len(v.args) == 1:
+                L = text(v.args[0])
+                mut = [c for c in f.own_nodes() if isinstance(c, ast.Call)
+                       and isinstance(c.func, ast.Attribute)
+                       and text(c.func.value) == L]
+                app = [c for c in mut if c.func.attr == "append"
+                       and enclosing_stmt(c) in loop.body]
+                ok = len(mut) == 1 and len(app) == 1 and not jumps
+                why = "`len(%s)`: %d mutation(s) of %s, %d unconditional " \
+                    "append(s) per element" % (L, len(mut), L, len(app))
+            else:
+                why = "`%s` is neither a per-element counter nor the length " \
+                    "of a per-element list" % text(r.value)
+            if ok:
+                ctx.ok("C20.R4", f, r, "%s returns the number of elements it "
+                       "encoded (%s)" % (cname, why), text_="%s occupancy" % cname)
+            else:
+                ctx.bad("C20.R4", f, r, "%s.encodeFiber returns an occupancy "
+                        "that is not one per encoded element (%s): the rank "
+                        "above accumulates it into its segment ends, so the "
+                        "arrays no longer decode by layout" % (cname, why),
+                        text_="%s occupancy" % cname)
